@@ -33,7 +33,7 @@ class Interp(ExprMixin, StmtMixin, CallMixin):
             si.seq_eq_at: self.i_seq_eq_at, si.unchanged: self.i_unchanged, si.is_nan: self.i_is_nan,
             si.is_finite: self.i_is_finite, si.f32_round: self.i_f32_round, si.float_eq: self.i_float_eq,
             si.f32_bytes: self.i_f32_bytes, si.f64_bytes: self.i_f64_bytes, si.ghost: self.i_ghost,
-            si.fresh_int: self.i_fresh_int, si.f32_of_bytes: self.i_f32_of_bytes, si.f64_of_bytes: self.i_f64_of_bytes, si.prefix_sum: self.i_prefix_sum,
+            si.fresh_int: self.i_fresh_int, si.f32_of_bytes: self.i_f32_of_bytes, si.f64_of_bytes: self.i_f64_of_bytes, si.prefix_sum: self.i_prefix_sum, si.fresh_bool: self.i_fresh_bool,
         })
         from . import models_threading
         self.models.update(models_threading.build())
@@ -245,3 +245,6 @@ class Interp(ExprMixin, StmtMixin, CallMixin):
             return total
         arr, _, _ = seqops.as_array(sq)
         return mk("int", PS(arr, to_term(i, "int")))
+
+    def i_fresh_bool(self, I, args, kw):
+        return Sym("bool", z3.Bool(self.path.fresh_name(args[0] if args else "nd")))
